@@ -81,6 +81,9 @@ def c18_check(prop, tier, seed, replay):
         models.append(dict(name="Monitor.tla sequential, MaxCalls=%d" % (maxcalls + 1), **{k: r[k] for k in ("generated", "distinct", "wall", "ok")}))
         # 1b. histories of ANY length: CleanWhenIdle and Scoped as an inductive invariant (Apalache)
         models.append(apalache_inductive(work))
+        # 1c. the positioner whose result must not depend on the monitor (its verification step logs through it)
+        if not replay:
+            models.append(engine.bk_model(work, tier))
         # 2. spec -> code: every complete history of the bound, with the delivery the model predicts
         if replay:
             with open(replay) as fh:
